@@ -31,6 +31,11 @@ theorem tie_gcm_shape :
     Gen.Token.gcmEncryptEmptyPassthrough = true ∧ Gen.Token.gcmDecryptEmptyPassthrough = true ∧
     Gen.Token.gcmSealPrependsNonce = true ∧ Gen.Token.gcmOpenSplitsNonce = true := by decide
 
+/-- the AES key is the SHA-256 digest of the *whole* configured secret (so that different secrets give
+different keys up to SHA-256 collisions); the hash itself is trusted. -/
+theorem tie_key_derivation :
+    Gen.Token.keyDerivationBody = "{ sum := sha256.Sum256([]byte(s)) return sum[:] }" := by decide
+
 /-! ## Serializer -/
 
 theorem cut1_append (b : UInt8) (u t : Bytes) (h : b ∉ u) : cut1 b (u ++ b :: t) = some (u, t) := by
